@@ -421,7 +421,12 @@ func newWSPeer() *wsPeer {
 	p := &wsPeer{conns: make(chan *wsPeerConn, 64), stallCh: make(chan struct{})}
 	up := websocket.Upgrader{}
 	p.srv = httptest.NewServer(http.HandlerFunc(func(w http.ResponseWriter, r *http.Request) {
-		if atomic.LoadInt32(&p.stall) != 0 {
+		if st := atomic.LoadInt32(&p.stall); st == 2 { // delay: answer the upgrade once the flag is cleared
+			atomic.AddInt32(&p.stalled, 1)
+			for i := 0; i < 500 && atomic.LoadInt32(&p.stall) == 2; i++ {
+				time.Sleep(10 * time.Millisecond)
+			}
+		} else if st != 0 {
 			atomic.AddInt32(&p.stalled, 1)
 			select {
 			case <-p.stallCh:
